@@ -30,9 +30,9 @@ pub fn dup3(old: Fd, new: Fd, cloexec: bool) -> crate::Result<()> {
                 }
             )
         };
-        // Trusting the syscall [API](https://man7.org/linux/man-pages/man2/dup.2.html#RETURN_VALUE)
-        #[expect(clippy::cast_possible_wrap, clippy::cast_possible_truncation)]
-        if res as i32 == -Errno::EBUSY.raw() {
+        // Compare the whole register, a value that only looks like `-EBUSY` in its low half isn't one
+        #[expect(clippy::cast_sign_loss)]
+        if res == (-(Errno::EBUSY.raw() as isize)) as usize {
             continue;
         }
         bail_on_below_zero!(res, "`DUP3` syscall failed");
